@@ -118,6 +118,10 @@ func main() {
 	if len(os.Args) > 1 {
 		mode = os.Args[1]
 	}
+	if mode == "styletypes" {
+		styleTypesMain(in, out)
+		return
+	}
 	if mode == "list" {
 		for _, p := range table {
 			fmt.Fprintln(out, p.name)
@@ -192,7 +196,8 @@ func staticProbeFiles() ([]srcFile, error) {
 // buildScratch regenerates every probe template with the repository's own generator (in-process: the harness is
 // compiled against core.Repo()), writes a module replacing templ by the tree under check, and compiles it.
 // Templates named in probeNames take one string; templates named Lit* take nothing (literal probes).
-func buildScratch(files []srcFile, probeNames map[string]bool, nonce map[string]bool) (*scratch, []string, []string, error) {
+// extraMain: further Go files of the main package (the style-type probe program).
+func buildScratch(files []srcFile, probeNames map[string]bool, nonce map[string]bool, extraMain ...srcFile) (*scratch, []string, []string, error) {
 	dir, err := os.MkdirTemp("", "c01probes")
 	if err != nil {
 		return nil, nil, nil, err
@@ -238,6 +243,11 @@ func buildScratch(files []srcFile, probeNames map[string]bool, nonce map[string]
 	if err = os.WriteFile(filepath.Join(dir, "main.go"), []byte(fmt.Sprintf(mainSrc, tbl.String(), ltbl.String())), 0o644); err != nil {
 		return fail(err)
 	}
+	for _, f := range extraMain {
+		if err = os.WriteFile(filepath.Join(dir, f.name), []byte(f.src), 0o644); err != nil {
+			return fail(err)
+		}
+	}
 	gomod := "module c01probes\n\ngo 1.23.0\n\nrequire github.com/a-h/templ v0.0.0\n\nreplace github.com/a-h/templ => " + core.Repo() + "\n"
 	os.WriteFile(filepath.Join(dir, "go.mod"), []byte(gomod), 0o644)
 	if sum, err := os.ReadFile(filepath.Join(core.Repo(), "go.sum")); err == nil {
@@ -276,9 +286,18 @@ func unhex(s string) []byte {
 
 // run feeds one hex line per input to the scratch binary in the given mode and returns its output lines.
 func (s *scratch) run(mode string, inputs [][]byte) ([]string, error) {
+	lines := make([][]byte, len(inputs))
+	for i, x := range inputs {
+		lines[i] = []byte(hexLine(x))
+	}
+	return s.runRaw(mode, lines)
+}
+
+// runRaw feeds the given lines as they are.
+func (s *scratch) runRaw(mode string, inputs [][]byte) ([]string, error) {
 	var in bytes.Buffer
 	for _, x := range inputs {
-		in.WriteString(hexLine(x))
+		in.Write(x)
 		in.WriteByte('\n')
 	}
 	cmd := exec.Command("timeout", "900", s.bin, mode)
